@@ -473,6 +473,43 @@ def _run_hist(case, batch, d):
             if got != [[r[0], r[3]] for r in read["records"]]:
                 read["reader_batch_differs"] = [rb, got if isinstance(got, str) else len(got), len(read["records"])]
                 break
+    # a selector handed to the reader together with a small reader batch: the same records as filtering afterwards (a
+    # batch without a single match is not the end of the table)
+    if "records" in read and read["records"]:
+        import keyword
+        from flow.record.selector import Selector
+        expr = None
+        try:
+            rd = SqliteReader(path)
+            try:
+                allrecs = list(rd)
+            finally:
+                rd.con.close()
+            last = allrecs[-1]
+            for n in last.__slots__:
+                if not n.isidentifier() or keyword.iskeyword(n) or n.startswith("_"):
+                    continue
+                v = getattr(last, n)
+                if isinstance(v, int) and not isinstance(v, bool) and v >= 0:      # (the language has no unary minus)
+                    expr = f"r.{n} == {int(v)}"
+                    break
+                if isinstance(v, str) and v.isascii() and v.isalnum():
+                    expr = f"r.{n} == '{str(v)}'"
+                    break
+            if expr is not None:
+                post = [[x._desc.name, [_obs_read_value(getattr(x, n)) for n in x.__slots__]] for x in allrecs
+                        if Selector(expr).match(x)]
+                for rb in (1, 2, 1000):
+                    rd = SqliteReader(path, selector=expr, batch_size=rb)
+                    try:
+                        got = [[x._desc.name, [_obs_read_value(getattr(x, n)) for n in x.__slots__]] for x in rd]
+                    finally:
+                        rd.con.close()
+                    if got != post:
+                        read["selector_batch_differs"] = [expr, rb, len(got), len(post)]
+                        break
+        except Exception as e:          # noqa: BLE001
+            read["selector_read_error"] = [expr, type(e).__name__ + ": " + str(e)[:120]]
     return {"batch": batch, "steps": steps, "read": read}
 
 
@@ -714,6 +751,12 @@ def _oracle_run(case, run):
         rb, got, n = rd["reader_batch_differs"]
         return (f"batch_size={b}: SqliteReader(batch_size={rb}) reads back {got} records where the default reader reads {n}: "
                 f"what is read depends on the reader's batch size")
+    if rd.get("selector_batch_differs"):
+        ex, rb, got, n = rd["selector_batch_differs"]
+        return (f"batch_size={b}: SqliteReader(selector={ex!r}, batch_size={rb}) yields {got} records where reading everything "
+                f"and filtering afterwards keeps {n}")
+    if rd.get("selector_read_error") and rd["selector_read_error"][0] is not None:
+        return f"batch_size={b}: SqliteReader with selector {rd['selector_read_error'][0]!r} raised {rd['selector_read_error'][1]}"
     per = {}
     for rec in rd["records"]:
         per.setdefault(rec[0], []).append(rec)
